@@ -28,8 +28,8 @@
 import Driver.Proto
 import FcModel.Cli
 import FcModel.Spec.C04
-namespace Fc.Drv
-open Fc Fc.Cli
+namespace Fc.Drv.C04
+open Fc Fc.C04 Fc.Drv
 
 /-! ### escaping -/
 
@@ -268,4 +268,6 @@ def handleC04 (op : String) : Option (P String) :=
   | "suitename" => some opSuiteName
   | _ => none
 
-end Fc.Drv
+end Fc.Drv.C04
+
+def Fc.Drv.handleC04 := Fc.Drv.C04.handleC04
